@@ -681,3 +681,66 @@ def sched_cases(jobs):
         except Exception:
             out.append({"id": job["id"], "skip": "harness: " + traceback.format_exc()[-700:]})
     return out
+
+
+# ---------------------------------------------------------------------------
+# C12 / C13: tables of typeorder / subclasscheck / applicability
+# ---------------------------------------------------------------------------
+def type_tables(jobs):
+    """job = {id, types (index terms), rows: [i...]}: order row i against every
+    type; for static types also subclasscheck and dispatch applicability."""
+    from ovld import Ovld, subclasscheck, typeorder
+
+    from . import typeuniv
+
+    out = []
+    for job in jobs:
+        T = job["types"]
+        R = typeuniv.Realizer()
+        n = len(T)
+        rows = {}
+        for i in job["rows"]:
+            a = R.real(T, i)
+            orow, srow = [], []
+            for j in range(1, n + 1):
+                b = R.real(T, j)
+                try:
+                    o = typeorder(a, b)
+                    orow.append(o.name)
+                except Exception as e:  # noqa
+                    orow.append("ERR:" + type(e).__name__)
+                try:
+                    srow.append(bool(subclasscheck(a, b)))
+                except Exception as e:  # noqa
+                    srow.append("ERR:" + type(e).__name__)
+            rec = {"order": orow, "subtt": srow}
+            # C13: classes against the (static) type i
+            t = T[i - 1]
+            if t["k"] in ("cls", "exactly", "strict", "hasmethod", "union", "inter") and job.get("static_ok", {}).get(str(i), False):
+                sc, dp = [], []
+                ov = Ovld()
+                ns = {"TT": a}
+                exec("def mt(x: TT):\n    return 'T'\ndef mo(x: object):\n    return 'O'\n", ns)
+                ov.register(ns["mt"])
+                ov.register(ns["mo"])
+                for c in range(1, typeuniv.NCLS + 1):
+                    cls = R.classes[c]
+                    try:
+                        sc.append(bool(subclasscheck(cls, a)))
+                    except Exception as e:  # noqa
+                        sc.append("ERR:" + type(e).__name__)
+                    if typeuniv.KINDS[c - 1] == "abc":
+                        dp.append("skip")
+                        continue
+                    inst = {7: 5, 8: True, 9: "s"}.get(c) if c >= 7 else cls()
+                    try:
+                        dp.append(ov(inst))
+                    except TypeError as e:
+                        dp.append("AMB" if str(e).startswith("Ambiguous") else "ERR:" + str(e)[:40])
+                    except Exception as e:  # noqa
+                        dp.append("ERR:" + type(e).__name__)
+                rec["clssub"] = sc
+                rec["dispatch"] = dp
+            rows[str(i)] = rec
+        out.append({"id": job["id"], "rows": rows})
+    return out
